@@ -330,7 +330,7 @@ impl Prop for C14 {
         "C14"
     }
     fn rule(&self) -> &'static str {
-        "Constant expressions over literals of all five types (incl. values at and around the INTEGER/LONG boundaries) and 0-2 earlier constants (bare and suffixed), with + - * / MOD, the six relational operators, AND OR NOT, unary minus and string concatenation/comparison, depth <= 5, defined at module level or inside a SUB, under a bare or suffixed name. For each: P1 = `CONST c = e : PRINT c`, P2 = `PRINT e`; P1 must be rejected for Overflow / Division by zero exactly when P2 raises 6 / 11 at run time, otherwise both print the same; a bare constant is referable through exactly one type suffix and a variable of that type receives the same value from e. Substitution: a program that uses c behaves (screen, printer, error) like the same program with every use replaced by (e). The uses are drawn from a table of 81 fragments (expression positions) (plain / parenthesised / unary / binary operand, argument of a user SUB with and without CALL incl. one that assigns to its parameter, of a user FUNCTION, of built-in functions and built-in subs incl. file numbers and names, nested arguments, array subscripts incl. READ targets, DIM / REDIM bounds, FOR from / to / step, SELECT CASE expression and CASE value / IS / range ends / list, PRINT, PRINT USING, LPRINT, PRINT # lists, IF / ELSEIF / WHILE / DO conditions, right side of another CONST at the same and at module level, record field, function result; STRING * n in DIM and TYPE is compared with the literal of the value, INTEGER constants only), at 8 scopes (module; module-level constant used in a SUB / in a FUNCTION / in a SUB while another SUB has a local constant of that name; constant local to a SUB / FUNCTION, alone or shadowing a module-level constant of another value), under 16 spellings (bare, each type suffix, dotted, dotted with suffix, two dots, defined bare and referenced with the suffix and vice versa, other letter case). Enumerated part: every position x scope x spelling with type-exact expressions of value 5 (quick: string and one rotating numeric type per cell; thorough: every type, two value sets); several positions share one program, positions whose substituted side fails are compared on their own. Random part: every generated bare or string constant is used in its 3 original positions plus 0-3 drawn ones (sizes, bounds, counts, file numbers only for printed values 1..20; file names only for letters) at a drawn scope and spelling. The implementation is compared with itself. Non-trivial = the expression has >= 1 operator (distinct by earlier constants, name, expression, scope), plus every distinct (position, scope, spelling, type or expression) cell."
+        "Constant expressions over literals of all five types (incl. values at and around the INTEGER/LONG boundaries) and 0-2 earlier constants (bare and suffixed), with + - * / MOD, the six relational operators, AND OR NOT, unary minus and string concatenation/comparison, depth <= 5, defined at module level or inside a SUB, under a bare or suffixed name. For each: P1 = `CONST c = e : PRINT c`, P2 = `PRINT e`; P1 must be rejected for Overflow / Division by zero exactly when P2 raises 6 / 11 at run time, otherwise both print the same; a bare constant is referable through exactly one type suffix and a variable of that type receives the same value from e. Substitution: a program that uses c behaves (screen, printer, error) like the same program with every use replaced by (e). The uses are drawn from a table of 81 fragments (expression positions) (plain / parenthesised / unary / binary operand, argument of a user SUB with and without CALL incl. one that assigns to its parameter, of a user FUNCTION, of built-in functions and built-in subs incl. file numbers and names, nested arguments, array subscripts incl. READ targets, DIM / REDIM bounds, FOR from / to / step, SELECT CASE expression and CASE value / IS / range ends / list, PRINT, PRINT USING, LPRINT, PRINT # lists, IF / ELSEIF / WHILE / DO conditions, right side of another CONST at the same and at module level, record field, function result; STRING * n in DIM and TYPE is compared with the literal of the value, INTEGER constants only; plus a boundary family: lengths 0, 1, 2, 32766, 32767, 32768, 70000 in DIM / TYPE / REDIM / array declarations, constant bare or %, at module level or in a SUB), at 8 scopes (module; module-level constant used in a SUB / in a FUNCTION / in a SUB while another SUB has a local constant of that name; constant local to a SUB / FUNCTION, alone or shadowing a module-level constant of another value), under 16 spellings (bare, each type suffix, dotted, dotted with suffix, two dots, defined bare and referenced with the suffix and vice versa, other letter case). Enumerated part: every position x scope x spelling with type-exact expressions of value 5 (quick: string and one rotating numeric type per cell; thorough: every type, two value sets); several positions share one program, positions whose substituted side fails are compared on their own. Random part: every generated bare or string constant is used in its 3 original positions plus 0-3 drawn ones (sizes, bounds, counts, file numbers only for printed values 1..20; file names only for letters) at a drawn scope and spelling. The implementation is compared with itself. Non-trivial = the expression has >= 1 operator (distinct by earlier constants, name, expression, scope), plus every distinct (position, scope, spelling, type or expression) cell."
     }
     fn assumptions(&self) -> Vec<&'static str> {
         vec!["expressions the checker rejects on their own (PRINT e rejected) are outside the property and only counted", "printed numbers are compared modulo an optional 0 before the decimal point", "STRING * n admits no expression: there the counterpart of the constant is the literal of its value (INTEGER constants 1..20 only)", "a substituted program that fails (rejected / run-time error / budget) must fail the same way with the constant; positions after the failure are then not observed in that program (counted: use:substituted-program:fails)", "once the enumerated part has reported a violation on a shard, that shard skips the random search"]
@@ -345,6 +345,7 @@ impl Prop for C14 {
                 sh.report(check_pair(sig, with_c, with_e, &json!({"sig": sig, "with_c": with_c, "with_e": with_e})));
             }
         }
+        string_length_boundaries(sh);
         if !sh.stats.violations.is_empty() {
             // the enumerated part already failed on this shard: no search (and no long shrinking) on top of it
             sh.note("random_search_skipped_after_grid_violations", json!(true));
@@ -991,6 +992,54 @@ const WITNESSES: [(&str, &str, &str); 1] = [(
     "CONST MAX.ITEMS = 5\nDECLARE SUB Show\nDECLARE SUB Report (n)\n\nReport MAX.ITEMS\nShow\n\nSUB Show\n    Report MAX.ITEMS\n    Report (5)\nEND SUB\n\nSUB Report (n)\n    PRINT n\nEND SUB\n",
     "DECLARE SUB Show\nDECLARE SUB Report (n)\n\nReport (5)\nShow\n\nSUB Show\n    Report (5)\n    Report (5)\nEND SUB\n\nSUB Report (n)\n    PRINT n\nEND SUB\n",
 )];
+
+/// STRING * n at the edges of what a length may be (0, 1, 2, 32766, 32767, 32768, 70000): the constant form and the literal
+/// form of the same declaration (DIM, TYPE element, REDIM, array of fixed-length strings; constant defined bare / with %,
+/// at module level or inside a SUB) must get the same verdict and print the same length.
+fn string_length_boundaries(sh: &mut Shard) {
+    const VALUES: [i64; 7] = [0, 1, 2, 32766, 32767, 32768, 70000];
+    const FORMS: [(&str, &str); 4] = [
+        ("dim", "DIM QS AS STRING * {n}\nPRINT LEN(QS)\n"),
+        ("type", "TYPE QU\nnm AS STRING * {n}\nEND TYPE\nDIM QV AS QU\nPRINT LEN(QV.nm)\n"),
+        ("redim", "REDIM QR(1 TO 2) AS STRING * {n}\nPRINT LEN(QR(1))\n"),
+        ("dim-array", "DIM QA(2) AS STRING * {n}\nQA(1) = \"abc\"\nPRINT LEN(QA(1)); LEN(QA(2))\n"),
+    ];
+    let mut index = 0u64;
+    for v in VALUES {
+        for (fname, form) in FORMS {
+            // (a LONG-typed constant has no literal counterpart of its type in this position: INTEGER-typed spellings only;
+            // values beyond INTEGER make the bare constant a LONG, as they make the literal)
+            for sfx in ["", "%"] {
+                for in_sub in [false, true] {
+                    index += 1;
+                    if sh.shard as u64 != index % sh.nshards as u64 {
+                        continue;
+                    }
+                    if (sfx == "%" && v > 32767) || (in_sub && fname == "type") {
+                        continue;
+                    }
+                    let name = format!("ZL{}", sfx);
+                    let (with_c, with_e) = if in_sub {
+                        let wrap = |first: &str, n: &str| format!("ZP\nSUB ZP\n{}\n{}END SUB\n", first, form.replace("{n}", n));
+                        (wrap(&format!("CONST {} = {}", name, v), &name), wrap("' the literal", &v.to_string()))
+                    } else {
+                        (format!("CONST {} = {}\n{}", name, v, form.replace("{n}", &name)), format!("' the literal\n{}", form.replace("{n}", &v.to_string())))
+                    };
+                    sh.eval();
+                    sh.journal(&with_c);
+                    sh.class(&format!("string-length-boundary:{}:{}", fname, v));
+                    sh.nontrivial(hash64(&with_c));
+                    let sig = format!("c14-use:string-length-boundary:{}", fname);
+                    let r = check_pair(&sig, &with_c, &with_e, &json!({"sig": sig, "with_c": with_c, "with_e": with_e}));
+                    if !sh.report(r) {
+                        return;
+                    }
+                }
+            }
+        }
+    }
+    sh.exhaustive("STRING * n boundary lengths: 7 values x 4 declaration forms x 2 constant spellings x module / SUB");
+}
 
 fn check_pair(sig: &str, with_c: &str, with_e: &str, inputs: &Value) -> Result<(), Violation> {
     let a = observe_all(with_c);
